@@ -21,7 +21,8 @@ CLAIMS = {
              "guard when checking is on; DNS request handlers write nothing into a session record before a guard for "
              "that session passed; tun traffic is dispatched only to the index returned by the live/logged-in/address "
              "lookup; a slot is taken over only if unused or expired; the peer address is rebound only at slot hand-out "
-             "or after the raw-login digest matched; one expiry constant and two complementary forms everywhere. The "
+             "or after the raw-login digest matched; the slot-in-use flag is cleared only before serving or for a session whose "
+             "authenticated guard passed and set only by the allocator; one expiry constant and two complementary forms everywhere. The "
              "behaviour exactly at the 60 s instant and multi-session interleavings are not decided.",
         technique="must-fact dataflow with history facts and summaries; return-path enumeration of the guard; "
                   "predicate normalisation for the expiry tests",
@@ -32,8 +33,8 @@ CLAIMS = {
              "subject, blocking system calls are not timed, and undefined behaviour other than out-of-bounds writes and "
              "table indexing is not decided. Every store, memcpy/memset/strncpy/snprintf-class call, indexed store, table "
              "index by character, unsigned subtraction and capacity argument in the units the server links is put in "
-             "one obligation class (M1 table index, M2 unsigned difference, M3 bounded copy, M3c stated capacity, M4 "
-             "indexed store, M5 cursor writers with inductive loop invariants, M6 persistent lengths, M3r producers "
+             "one obligation class (M1 table index, M2 unsigned difference, M3 bounded copy, M3c stated capacity (codec calls through the "
+             "ops tables included), M4 indexed store, M4l indexed load, M5 cursor writers with inductive loop invariants, M6 persistent lengths, M3r producers "
              "return at most their capacity, M8 every loop has a ranking function and every call-graph cycle a decreasing "
              "counter or a latch, M9 no exit reachable from a packet entry point) and discharged on every "
              "path by must-facts, linear bounds and extents of the destination objects; what a function cannot show "
@@ -112,7 +113,9 @@ CLAIMS = {
              "is written, with no intervening write; what is compressed is exactly the buffer and length read_tun returned and "
              "what enters the sender state is exactly the compressor's output; client and server agree bit for bit on every "
              "field of the upstream 5-character data header, the downstream 2-byte header and the ping ack byte (bit-level "
-             "provenance from the writer's stores to the reader's uses, through the Base32 digit functions). Not decided: which "
+             "provenance from the writer's stores to the reader's uses, through the Base32 digit functions); the buffer handed "
+             "to read_tun holds the largest frame the device can deliver (largest MTU tun_setmtu accepts + 4), so nothing is cut "
+             "before compression. Not decided: which "
              "fragments the reassembly accepts under loss/duplication/reordering - a wrong acceptance is caught at run time by "
              "the checksum these rules make mandatory, except with probability 2^-32.",
         technique="must-fact dataflow (call-result facts killed by any write to the buffers involved) for the gates; bit-level "
@@ -125,7 +128,8 @@ CLAIMS = {
              "fixed discriminant, not by text); the seven record types fall into the same four format classes in write_dns, "
              "dns_encode and dns_decode and are routed accordingly by read_dns_withq; MX/SRV preference numbering (step, base, "
              "slot index, a guaranteed empty sentinel slot for the unbounded read loop) and the SRV extra fields agree; hostname "
-             "prefix/suffix lengths written and stripped agree; TXT strings are length-prefixed with the bytes copied and "
+             "prefix/suffix lengths written and stripped agree (reader tabulated over all 65536 preferences); the codecs used are "
+             "lossless and never write beyond the room they are given (C07's rules re-evaluated); TXT strings are length-prefixed with the bytes copied and "
              "bounded on both sides; the hostname reserve arithmetic keeps every name within 253 characters and the dot interval "
              "matches inline_dotify; the MX/SRV name table is cleared in full before every use. Found and now guards the repair "
              "of the Base64u/Base64 decoder mix-up. Not decided: per-length exactness and monotonicity inside one format.",
@@ -155,7 +159,8 @@ CLAIMS = {
              "compression pointers to offsets where a name starts; id, question name and type come from the query being answered; "
              "every fixed-size write is covered by a dominating length check and variable-size writers get a capacity that cannot "
              "have wrapped; datagrams are sent from the buffer the encoder filled and headers are never patched outside the "
-             "builders. Not decided: bytes inside names, and session-level behaviour.",
+             "builders; a duplicate that will be answered with a held query's name is remembered only under byte-identical "
+             "names. Not decided: bytes inside names, and session-level behaviour.",
         technique="symbolic path enumeration with bounded loop unrolling, token-grammar parsing, linear path constraints",
         design="5 C10"),
     "C14": dict(
@@ -179,7 +184,8 @@ CLAIMS = {
              "accepts every size the sender can build; a cache hit replays the payload stored under the question that matched on "
              "type and name; the data fingerprint saved and the one checked are the same function of the header characters "
              "(both sides tabulated by constant evaluation) and case-insensitive, the ping fingerprint is the same Base32 "
-             "decoding on both sides, 4 bytes plus the record type are compared; ring indices wrap inside their arrays. Not "
+             "decoding on both sides, 4 bytes plus the record type are compared; ring indices wrap inside their arrays; the "
+             "three duplicate checks never store into the memories. Not "
              "decided: whether the windows (4/15/30) suffice for a given replay pattern.",
         technique="must-fact dataflow with history facts and dominator reasoning, callee summaries, tabulation of the two "
                   "fingerprint routines by constant evaluation, table agreement of extents",
@@ -229,7 +235,8 @@ CLAIMS = {
              "id, only under entry != NULL, on the socket chosen for that address, with the received bytes and length unchanged; "
              "every path through fw_query_put stores one whole entry at the ring cursor and advances it by exactly one with "
              "wrap-around inside the array (0 <= cursor < size proven inductively over all writers); fw_query_get starts from "
-             "NULL, scans every slot and reports a slot only on id equality; forwarding happens only with a configured port. Not "
+             "NULL, scans every slot and reports a slot only on id equality; no function outside fw_query.c writes a remembered "
+             "entry; forwarding happens only with a configured port. Not "
              "decided: which entry wins among equal ids beyond the window of 16.",
         technique="must-fact dataflow, symbolic path enumeration of the ring writer, inductive field invariant, token-walk "
                   "derived message bound",
@@ -243,7 +250,8 @@ CLAIMS = {
              "succeeded (flags are set only under their own test); the server serves the codec check for every documented (record "
              "type, codec) pair, which covers every pair the client probes during type autodetection; a codec switch is committed "
              "only after a non-error reply; the fragment-size probe generator and checker share their constants; no negotiated "
-             "parameter (EDNS0 use, codecs, query type, name limit) is written after the fragment size was probed. Found and now "
+             "parameter (EDNS0 use, codecs, query type, name limit) is written after the fragment size was probed; every data "
+             "answer carries at most the negotiated fragment size (C15's sender rules re-evaluated). Found and now "
              "guards the repair of the PRIVATE/Raw codec-check gap.",
         technique="table agreement by reachability under fixed discriminants, must-fact dataflow for tested-before-selected, "
                   "CFG reachability after the probe",
